@@ -289,6 +289,11 @@ Qed.
 Lemma sact_split f : sact fb f = true <-> isact fb f = true /\ is_complex fb f = false.
 Proof. unfold sact. rewrite andb_true_iff, negb_true_iff. tauto. Qed.
 
+Lemma dep_ok_act f d : isact fb f = true -> dep_ok fb f d = true -> sact fb d = true.
+Proof.
+  intros Ha H. unfold dep_ok in H. rewrite Ha in H. cbn [negb andb] in H. now rewrite orb_false_r in H.
+Qed.
+
 Lemma cact_split f : cact fb f = true <-> isact fb f = true /\ is_complex fb f = true.
 Proof. unfold cact. rewrite andb_true_iff. tauto. Qed.
 
